@@ -467,7 +467,8 @@ def run_cross(prop, tier="quick", seed=None, nproc=None, runs=None, budget=None)
                 c = dict(small)
                 c["ops"] = list(sub)
                 return fails(c)
-            small["ops"] = ddmin(list(case["ops"]), f_ops, max_tests=60)
+            if "ops" in case:
+                small["ops"] = ddmin(list(case["ops"]), f_ops, max_tests=60)
             if small.get("epilogue"):
                 def f_epi(sub):
                     if time.time() > t_end:
@@ -495,7 +496,7 @@ def run_cross(prop, tier="quick", seed=None, nproc=None, runs=None, budget=None)
                        "case": small, "original_case": case}, fh, default=repr)
         print("VIOLATION property=%s replay=%s" % (prop, path))
         print("  class=%s.transcript run=%d: build=%s hashseed=%s and build=%s hashseed=%s give different transcripts from step %d on "
-              "(minimised to %d ops)" % (prop, run, pair[0][0], pair[0][1], pair[1][0], pair[1][1], k, len(small["ops"])))
+              "(minimised to %d ops)" % (prop, run, pair[0][0], pair[0][1], pair[1][0], pair[1][1], k, len(small.get("ops", ()))))
         confirmed += 1
         rc = 1
     wall = time.time() - t0
